@@ -331,14 +331,29 @@ pub fn is_word_byte(b: u8) -> bool {
     b.is_ascii_alphanumeric() || b == b'_'
 }
 
-/// Evaluate a look at position `i` of haystack `h[lo..hi]` (ASCII word
-/// semantics are used for the Unicode word looks: valid when the neighbours
-/// are ASCII, which callers ensure).
+/// Evaluate a look at position `i` of haystack `h[lo..hi]`.  The Unicode word
+/// looks are modelled for haystacks over the alphabet "ASCII plus well-formed
+/// U+00E9 (C3 A9)", which is what callers restrict inputs to whenever such a
+/// look is present: U+00E9 is a word character; as in regex-automata, the
+/// half-boundary and negated looks fail when the neighbouring side does not
+/// decode (a position splitting the C3 A9 pair).
 pub fn look_holds(l: Look, h: &[u8], lo: usize, hi: usize, i: usize) -> bool {
     let prev = if i > lo { Some(h[i - 1]) } else { None };
     let next = if i < hi { Some(h[i]) } else { None };
     let wb = prev.map_or(false, is_word_byte);
     let wa = next.map_or(false, is_word_byte);
+    let e_before = i >= lo + 2 && h[i - 2] == 0xC3 && h[i - 1] == 0xA9;
+    let e_after = i + 1 < hi && h[i] == 0xC3 && h[i + 1] == 0xA9;
+    let dec_prev_ok = match prev {
+        None => true,
+        Some(b) => b < 0x80 || e_before,
+    };
+    let dec_next_ok = match next {
+        None => true,
+        Some(b) => b < 0x80 || e_after,
+    };
+    let wbu = wb || e_before;
+    let wau = wa || e_after;
     match l {
         Look::Start => i == lo,
         Look::End => i == hi,
@@ -350,13 +365,34 @@ pub fn look_holds(l: Look, h: &[u8], lo: usize, hi: usize, i: usize) -> bool {
         Look::EndCRLF => {
             i == hi || next == Some(b'\r') || (next == Some(b'\n') && prev != Some(b'\r'))
         }
-        Look::WordAscii | Look::WordUnicode => wb != wa,
-        Look::WordAsciiNegate | Look::WordUnicodeNegate => wb == wa,
-        Look::WordStartAscii | Look::WordStartUnicode => !wb && wa,
-        Look::WordEndAscii | Look::WordEndUnicode => wb && !wa,
-        Look::WordStartHalfAscii | Look::WordStartHalfUnicode => !wb,
-        Look::WordEndHalfAscii | Look::WordEndHalfUnicode => !wa,
+        Look::WordAscii => wb != wa,
+        Look::WordAsciiNegate => wb == wa,
+        Look::WordStartAscii => !wb && wa,
+        Look::WordEndAscii => wb && !wa,
+        Look::WordStartHalfAscii => !wb,
+        Look::WordEndHalfAscii => !wa,
+        Look::WordUnicode => wbu != wau,
+        Look::WordUnicodeNegate => dec_prev_ok && dec_next_ok && wbu == wau,
+        Look::WordStartUnicode => !wbu && wau,
+        Look::WordEndUnicode => wbu && !wau,
+        Look::WordStartHalfUnicode => dec_prev_ok && !wbu,
+        Look::WordEndHalfUnicode => dec_next_ok && !wau,
     }
+}
+
+/// haystack is over "ASCII plus well-formed C3 A9 pairs"
+pub fn is_ascii_eacute(h: &[u8]) -> bool {
+    let mut i = 0;
+    while i < h.len() {
+        if h[i] < 0x80 {
+            i += 1;
+        } else if h[i] == 0xC3 && i + 1 < h.len() && h[i + 1] == 0xA9 {
+            i += 2;
+        } else {
+            return false;
+        }
+    }
+    true
 }
 
 fn mask_holds(m: u32, h: &[u8], lo: usize, hi: usize, i: usize) -> bool {
